@@ -557,6 +557,46 @@ Section ProviderProofs.
       - destruct (p_cur s) as [[i r]|]; simpl; auto. }
     destruct (pstep s e) as [s1 o1]. specialize (IH s1 H1). destruct (prun s1 es). exact IH.
   Qed.
+
+  (* the worker left alone comes to rest: one Take/Finish round per outstanding operation *)
+  Fixpoint drain (n : nat) : list pevent :=
+    match n with O => [] | S k => EvTake :: EvFinish :: drain k end.
+  Definition outstanding (s : pstate) : nat :=
+    (length (p_queue s) + match p_cur s with Some _ => 1 | None => 0 end)%nat.
+
+  Lemma drains n : forall s, (outstanding s <= n)%nat -> quiescent (fst (prun s (drain n))) = true.
+  Proof.
+    induction n as [|n IH]; intros s H.
+    - unfold outstanding in H. simpl. unfold quiescent.
+      destruct (p_queue s); [|simpl in H; lia]. destruct (p_cur s); [simpl in H; lia|reflexivity].
+    - unfold outstanding in H.
+      change (drain (S n)) with ([EvTake; EvFinish] ++ drain n). rewrite prun_app.
+      assert (Hs : (outstanding (fst (prun s [EvTake; EvFinish])) <= n)%nat).
+      { clear IH. destruct s as [nx q c mv ex h]. unfold outstanding in *. simpl in *.
+        destruct c as [[i r]|]; [simpl; lia|]. destruct q as [|[i r] q]; simpl in *; lia. }
+      destruct (prun s [EvTake; EvFinish]) as [s1 o1]. simpl in Hs.
+      specialize (IH s1 Hs). destruct (prun s1 (drain n)) as [s2 o2]. exact IH.
+  Qed.
+
+  Lemma reqs_ok_drain es n : reqs_ok es -> reqs_ok (es ++ drain n).
+  Proof.
+    intros H. apply Forall_app. split; [assumption|]. induction n; simpl; repeat constructor; auto.
+  Qed.
+
+  Lemma outstanding_bounded es n mv :
+    (outstanding (fst (prun (pinit n mv) es)) <= S qcap)%nat.
+  Proof.
+    pose proof (queue_bounded es (pinit n mv)) as H. simpl in H.
+    specialize (H ltac:(lia)). unfold outstanding. destruct (p_cur _); lia.
+  Qed.
+
+  Lemma drained_quiescent es n mv :
+    quiescent (fst (prun (pinit n mv) (es ++ drain (S qcap)))) = true.
+  Proof.
+    rewrite prun_app. pose proof (outstanding_bounded es n mv) as H.
+    destruct (prun (pinit n mv) es) as [s1 o1]. simpl in H.
+    pose proof (drains (S qcap) s1 H) as Hq. destruct (prun s1 (drain (S qcap))) as [s2 o2]. exact Hq.
+  Qed.
 End ProviderProofs.
 
 (* the words of the statement: the states of one transaction, in the order response, reports, read
